@@ -209,9 +209,12 @@ impl Model {
         let silent = self.last_act.get(&tx).copied().unwrap_or(0) <= acq + self.timeout;
         if silent {
             self.lost.insert(tx);
-            if !graph_aware {
-                self.lost_nograph.insert(tx);
-            }
+        }
+        // whichever lock it was: a call without the wait-for graph took a lock of
+        // this transaction away, so the manager had no chance to clean the graph
+        // when the transaction's LAST lock went (that may have been this one)
+        if !graph_aware {
+            self.lost_nograph.insert(tx);
         }
     }
     fn acted(&mut self, tx: u64) {
